@@ -29,6 +29,8 @@ type Reader struct {
 	termFunc func()
 	command  *string
 	wait     bool
+	// Temporary files of the command being read
+	tempFiles []string
 }
 
 // NewReader returns new Reader object
@@ -44,7 +46,8 @@ func NewReader(pusher func([]byte) bool, eventBox *util.EventBox, executor *util
 		false,
 		func() { os.Stdin.Close() },
 		nil,
-		wait}
+		wait,
+		nil}
 }
 
 func (r *Reader) startEventPoller() {
@@ -94,10 +97,16 @@ func (r *Reader) terminate() {
 		r.termFunc()
 		r.termFunc = nil
 	}
+	// fzf may exit before the reader gets to remove them
+	removeFiles(r.tempFiles)
+	r.tempFiles = nil
 	r.mutex.Unlock()
 }
 
 func (r *Reader) restart(command commandSpec, environ []string, readyChan chan bool) {
+	r.mutex.Lock()
+	r.tempFiles = command.tempFiles
+	r.mutex.Unlock()
 	r.event = int32(EvtReady)
 	r.startEventPoller()
 	success := r.readFromCommand(command.command, environ, func() {
